@@ -12,7 +12,6 @@ import urwid.widget.scrollable as mod
 
 import bounded.C20 as b
 
-BASE = {"C20/position", "C20/scroll-moves", "C20/listbox-thumb-top"}  # red on the unchanged tree (findings)
 
 
 def mutate(cls, meth, old, new, module=mod):
@@ -64,12 +63,13 @@ MUTANTS = [
 ]
 
 if __name__ == "__main__":
-    print("unchanged tree:", sorted(sample_run()))
+    base = sample_run()
+    print("unchanged tree (failing evaluations, all from the reported findings):", base)
     for title, cls, meth, old, new in MUTANTS:
         undo = mutate(cls, meth, old, new)
         try:
             red = sample_run()
         finally:
             undo()
-        extra = {k: v for k, v in red.items() if k not in BASE}
-        print(f"{'KILLED ' if extra else 'SURVIVED'} {title}: {extra or red}")
+        diff = {k: (base.get(k, 0), red.get(k, 0)) for k in sorted(set(base) | set(red)) if base.get(k, 0) != red.get(k, 0)}
+        print(f"{'KILLED  ' if diff else 'SURVIVED'} {title}: failing evaluations (unchanged, mutant) {diff}")
